@@ -155,7 +155,13 @@ func genTree(r *rand.Rand, withBad bool, maxTempl int) treeSpec {
 			} else {
 				m -= 1 + int64(r.Intn(5000))
 			}
-			t.Files[path.Join(d, name+"_templ.go")] = ent{Data: []byte("// stale generated file\npackage " + pkgName(d) + "\n\nvar stale" + fmt.Sprint(i) + " = 1\n"), Mtime: m}
+			stale := "// stale generated file\npackage " + pkgName(d) + "\n\nvar stale" + fmt.Sprint(i) + " = 1\n"
+			if r.Intn(2) == 0 {
+				// longer than anything the generator will write for this template
+				// (an output file that is not truncated keeps this tail)
+				stale += strings.Repeat("// an older, longer version of this file: padding padding padding padding\n", 200+r.Intn(400))
+			}
+			t.Files[path.Join(d, name+"_templ.go")] = ent{Data: []byte(stale), Mtime: m}
 		}
 	}
 	if withBad { // at least one bad file of each kind outside skipped dirs; a bad file inside a skipped dir is harmless
